@@ -52,6 +52,7 @@ theorem prepare_fresh (ring snap : Ring) (op : Op) (txs : List Tx) (r' : Ring) (
   cases op with
   | importKeys ks c => exact hp
   | refresh => exact hp
+  | «open» => exact hp
   | addKey d =>
     simp only [prepare, Option.some.injEq] at hp ⊢
     subst hp
@@ -172,6 +173,25 @@ theorem atomicOp_snap (ring snap : Ring) (op : Op) :
   repeat' split
   all_goals simp
 
+/-- after an atomic operation the handle's snapshot is the stored ring, or it is unchanged -/
+theorem exec_snap (a : AState) (e : Event) :
+    (a.exec e).snap e.tid = (a.exec e).cur e.path ∨ (a.exec e).snap e.tid = a.snap e.tid := by
+  unfold AState.exec
+  by_cases hx : a.ex e.path = true
+  · simp only [hx, if_true]
+    rcases atomicOp_snap (a.cur e.path) (a.snap e.tid) e.op with h1 | ⟨h1, _⟩
+    · left; simp [h1]
+    · right; simp [h1]
+  · by_cases ho : e.op = .open
+    · left; simp [hx, ho]
+    · right; simp [hx, ho]
+
+theorem exec_snap_other (a : AState) (e : Event) (j : Nat) (h : j ≠ e.tid) : (a.exec e).snap j = a.snap j := by
+  unfold AState.exec
+  by_cases hx : a.ex e.path = true
+  · simp [hx, upd, h]
+  · by_cases ho : e.op = .open <;> simp [hx, ho, upd, h]
+
 /-- invariant of the pair (concurrent state, atomic state): every handle of ring `p` has, in the
 atomic store, a snapshot that is a prefix of the ring -/
 def SeqPrefix (p : Nat) (s : St) (a : AState) : Prop :=
@@ -202,16 +222,15 @@ theorem step_seqPrefix (c0 : Nat → Ring) (p : Nat) (s : St) (a : AState) (i : 
       have hcur := hS'.cur p
       unfold AState.after at hcur
       rw [hl] at hcur
-      simp only [AState.exec, ht, upd_same]
-      rcases atomicOp_snap (a.cur e.path) (a.snap j) e.op with h1 | ⟨h1, h2⟩
-      · rw [h1]
-        have : (atomicOp (a.cur e.path) (a.snap j) e.op).1 = (step s j).cur p := by
-          rw [← hcur]
-          simp [AState.exec, hp, hj, ht]
-        rw [this]
+      simp only at hcur ⊢
+      rcases exec_snap a e with h1 | h1
+      · rw [ht] at h1
+        rw [h1, hp, hj, hcur]
         exact snapPrefix_refl _
-      · rw [h1]; exact hkeep
-    · simp only [AState.exec, ht, upd, if_neg hji]
+      · rw [ht] at h1
+        rw [h1]; exact hkeep
+    · simp only
+      rw [exec_snap_other a e j (by rw [ht]; exact hji)]
       exact hkeep
 
 theorem atomicRun_after' (a : AState) (s : St) (i : Nat) : atomicRun a (linPoint s i).toList = a.after s i :=
